@@ -149,7 +149,9 @@ func c07InitialN(c *Ctx, g *load.G, kind string, fd *ast.FuncDecl, need []string
 							justified = true
 						}
 					}
-					if !(p[i].Kind == "branch" && p[i].Text == "break" && i > incl && justified) {
+					// leaving by `break` and leaving by returning the accumulated set are the same exit
+					leaves := (p[i].Kind == "branch" && p[i].Text == "break") || (p[i].Kind == "return" && p[i].Text == ret && ret != "")
+					if !(leaves && i > incl && justified) {
 						okAll, how = false, "the loop over "+field+" must include items up to and including the first non-nullable one; it leaves with "+p[i].Kind+" "+p[i].Text+" under ["+strings.Join(p[:i].facts(), " ")+"]"
 					}
 				}
